@@ -284,14 +284,46 @@ func (f *Funded) MinePending(extra ...*wire.MsgTx) {
 			}
 		}
 	}
-	receipts := len(txs)
 	txs = append(append(txs, f.Pending...), extra...)
+	// parents first: a block never confirms a child before its parent
+	inSet := map[chainhash.Hash]*wire.MsgTx{}
+	for _, t := range txs {
+		inSet[t.TxHash()] = t
+	}
+	var ordered []*wire.MsgTx
+	done := map[chainhash.Hash]bool{}
+	var visit func(t *wire.MsgTx)
+	visit = func(t *wire.MsgTx) {
+		h := t.TxHash()
+		if done[h] {
+			return
+		}
+		done[h] = true
+		for _, in := range t.TxIn {
+			if p, ok := inSet[in.PreviousOutPoint.Hash]; ok {
+				visit(p)
+			}
+		}
+		ordered = append(ordered, t)
+	}
+	for _, t := range txs {
+		visit(t)
+	}
+	txs = ordered
 	f.Chain.Extend(txs...)
 	ht := f.Chain.Height()
 	f.Chain.NotifyConnect(int(ht))
-	for _, tx := range txs[:receipts] {
+	for _, tx := range txs {
+		if pend[tx.TxHash()] {
+			continue
+		}
 		if c, ok := f.Coins[wire.OutPoint{Hash: tx.TxHash(), Index: 0}]; ok {
 			c.Height = ht
+		}
+		for _, in := range tx.TxIn {
+			if c, ok := f.Coins[in.PreviousOutPoint]; ok {
+				c.SpentBy = "conf"
+			}
 		}
 	}
 	for _, tx := range f.Pending {
